@@ -278,10 +278,6 @@ Section Tokens.
 Variable F : nat.
 Variable i : list bytes.
 
-(* what may follow a keyword or an identifier: the end, or a byte that is not part of one *)
-Definition after_word (Y : bytes) : bool :=
-  match Y with [] => true | y :: _ => negb (is_ident y) && negb (beq y NUL) end.
-
 Lemma after_word_hd_ok Y : after_word Y = true -> hd_ok Y.
 Proof.
   destruct Y as [|y Y']; [intros _; exact I|]. cbn [after_word hd_ok]. intros H.
@@ -564,7 +560,7 @@ Proof.
     pose proof (read_string_at F HF1 i [] l dn Y _ A1 eq_refl Hl HF) as Hs.
     cbn [render_trivia map concat rev app] in Hs. rewrite Hs. f_equal.
   - (* . "path" *)
-    cbn [hd landed]. rewrite beq_refl.
+    rewrite <- !app_assoc in *. cbn [app] in *. cbn [hd landed]. rewrite beq_refl.
     change (set_peek (cst (render_trivia mid ++ render_lit l ++ Y) (DOTB :: dn) DOTB i) NUL)
       with (cst (render_trivia mid ++ render_lit l ++ Y) (DOTB :: dn) NUL i).
     rewrite (read_string_at F HF1 i mid l (DOTB :: dn) Y _ (at_fresh i _ _) Hm Hl).
